@@ -51,6 +51,11 @@ pub fn leaves() -> Vec<E> {
     v.push(E::Rec(vec![("a".into(), l(1)), ("b".into(), E::str("x"))]));
     v.push(E::Rec(vec![("k y".into(), E::Bool(true))]));
     v.push(E::Rec(vec![("a".into(), E::Rec(vec![("b".into(), l(2))]))]));
+    // nesting of depth 3 and 4: the last attribute of a `has` path present / absent / below a non-record
+    v.push(E::Rec(vec![("a".into(), E::Rec(vec![("b".into(), E::Rec(vec![("c".into(), l(3))]))]))]));
+    v.push(E::Rec(vec![("a".into(), E::Rec(vec![("b".into(), E::Rec(vec![("x".into(), l(3))]))]))]));
+    v.push(E::Rec(vec![("a".into(), E::Rec(vec![("b".into(), E::Rec(vec![("c".into(), E::Rec(vec![("d".into(), l(4))]))]))]))]));
+    v.push(E::Rec(vec![("a".into(), E::Rec(vec![("b".into(), E::Rec(vec![("c".into(), E::Rec(vec![]))]))]))]));
     // extension values (+ equal values spelled differently)
     v.push(dec("1.5"));
     v.push(dec("1.50"));
@@ -167,6 +172,10 @@ pub fn gen(tier: Tier) -> Vec<E> {
         out.push(E::Has(b(x.clone()), vec!["a".into(), "b".into()]));
         out.push(E::Has(b(x.clone()), vec!["meta".into(), "pub".into()]));
         out.push(E::Has(b(x.clone()), vec!["mgr".into(), "age".into()]));
+        // paths of 3 and 4 attributes (after hand mutant c02_extended_has_two_levels_only)
+        out.push(E::Has(b(x.clone()), vec!["a".into(), "b".into(), "c".into()]));
+        out.push(E::Has(b(x.clone()), vec!["a".into(), "b".into(), "c".into(), "d".into()]));
+        out.push(E::Has(b(x.clone()), vec!["mgr".into(), "mgr".into(), "age".into()]));
         for t in ["User", "Group", "Doc", "Action", "NS::Thing"] {
             out.push(E::Is(b(x.clone()), t.to_string()));
         }
